@@ -188,19 +188,66 @@ func isComment(node Node) bool {
 	return ok
 }
 
-// Compact mode: Skip comments and decide if we need a space separator or not.
-func prettyPrintCompact(ps *PrintState, s Node, i int) bool {
-	if isComment(s) {
-		return true
-	}
+// Compact mode: decide if we need a space separator or not between the previous statement
+// (whose last printed piece is prevLast) and the current one (whose compact text is cur).
+func compactNeedsSpace(ps *PrintState, s Node, prevLast, cur string) bool {
 	_, prevIsExpr := ps.prev.(*InfixExpression)
 	_, curIsArray := s.(*ArrayLiteral)
-	if curIsArray || (prevIsExpr && ps.last != "}" && ps.last != "]") {
-		if i > 0 {
-			_, _ = ps.Out.Write([]byte{' '})
-		}
+	if curIsArray || (prevIsExpr && prevLast != "}" && prevLast != "]") {
+		return true
+	}
+	if prevLast == "" || cur == "" {
+		return false
+	}
+	a, b := prevLast[len(prevLast)-1], cur[0]
+	switch {
+	case isWordByte(a) && isWordByte(b): // `a b` would become the identifier ab, `1 2` the number 12.
+		return true
+	case b == '(' || b == '[': // would become a call or an index on the previous statement.
+		return true
+	case a == '.' || b == '.': // `1.` followed by a word, or anything followed by `.5`.
+		return true
 	}
 	return false
+}
+
+func isWordByte(c byte) bool {
+	return c == '_' || (c >= '0' && c <= '9') || (c >= 'a' && c <= 'z') || (c >= 'A' && c <= 'Z')
+}
+
+// startsWithSign reports whether the printed form of the statement starts with a unary operator that,
+// coming after another statement, would be parsed as a binary (or postfix) operator continuing it:
+// `x` newline `-1` is `x - 1`. Such statements are printed inside parentheses.
+func startsWithSign(node Node) bool {
+	for {
+		switch n := node.(type) {
+		case *PrefixExpression:
+			switch n.Type() { //nolint:exhaustive // only the prefix operators that are also infix/postfix ones.
+			case token.MINUS, token.PLUS, token.BITXOR, token.INCR, token.DECR:
+				return true
+			default:
+				return false
+			}
+		case *InfixExpression:
+			node = n.Left
+		case *IndexExpression:
+			node = n.Left
+		case *CallExpression:
+			node = n.Function
+		default:
+			return false
+		}
+	}
+}
+
+func printStatement(ps *PrintState, s Node, wrap bool) {
+	if wrap {
+		ps.Print("(")
+	}
+	s.PrettyPrint(ps)
+	if wrap {
+		ps.Print(")")
+	}
 }
 
 // Normal/long form print: Decide if using new line or space as separator.
@@ -226,14 +273,27 @@ func (p Statements) PrettyPrint(ps *PrintState) *PrintState {
 	ps.ExpressionPrecedence = LOWEST
 	var i int
 	for _, s := range p.Statements {
+		// (the long form keeps printing such a statement bare on its own line.)
+		wrap := ps.Compact && i > 0 && startsWithSign(s)
 		if ps.Compact {
-			if prettyPrintCompact(ps, s, i) {
+			if isComment(s) {
 				continue // skip comments entirely.
 			}
+			// Print the statement aside first: whether a separator is needed depends on how its text starts.
+			prevLast := ps.last
+			saved := ps.Out
+			buf := &strings.Builder{}
+			ps.Out = buf
+			printStatement(ps, s, wrap)
+			ps.Out = saved
+			if i > 0 && compactNeedsSpace(ps, s, prevLast, buf.String()) {
+				_, _ = ps.Out.Write([]byte{' '})
+			}
+			_, _ = ps.Out.Write([]byte(buf.String()))
 		} else {
 			prettyPrintLongForm(ps, s, i)
+			printStatement(ps, s, wrap)
 		}
-		s.PrettyPrint(ps)
 		ps.prev = s
 		i++
 	}
